@@ -430,10 +430,14 @@ fn free_shape(subj: Subj, prof: &Prof, big: bool) -> BoxedStrategy<Case> {
     } else {
         vec(o, 0..max_ops).boxed()
     };
-    (cfg_for(subj, prof, big), ops, 0u8..4, prop::bool::weighted(0.25), prop_oneof![5 => Just(0u8), 1 => Just(1u8), 1 => Just(2u8)])
-        .prop_map(move |(mut cfg, ops, repolls, inexact, kind)| {
+    let short = prop_oneof![3 => Just(0u16), 3 => 1u16..4, 1 => 1u16..200];
+    (cfg_for(subj, prof, big), ops, 0u8..4, (prop::bool::weighted(0.25), short), prop_oneof![5 => Just(0u8), 1 => Just(1u8), 1 => Just(2u8)])
+        .prop_map(move |(mut cfg, ops, repolls, (inexact, short), kind)| {
             if cfg.ctor == 2 && !subj.is_join() {
                 cfg.inexact_iter = inexact;
+            }
+            if cfg.inexact_iter {
+                cfg.iter_short = short;
             }
             if subj.is_collection() {
                 cfg.child_kind = kind;
@@ -608,14 +612,16 @@ fn oscillation_shape(subj: Subj, prof: &Prof) -> BoxedStrategy<Case> {
     let prof = prof.clone();
     (
         cfg_for(subj, &prof, false),
-        1u8..70,          // fill size
+        (1u8..70, prop_oneof![3 => Just(0u8), 1 => 1u8..70]), // fill size (+ an optional second batch: populations up to 138 per cycle)
         0u8..70,          // how many to complete per cycle
         3u8..40,          // repetitions
         plan(pc),
         prop::bool::ANY,  // wake storm
         waker_idx(),
+        // what drains: the oldest `comp` / `comp` from a generated position / everything but one survivor
+        (prop_oneof![3 => Just(0u8), 1 => Just(1u8), 1 => Just(2u8)], sel()),
     )
-        .prop_map(move |(mut cfg, fill, comp, reps, pl, storm, wk)| {
+        .prop_map(move |(mut cfg, (fill, fill2), comp, reps, pl, storm, wk, (drain, dsel))| {
             let mut ops = Vec::new();
             if subj.is_adapter() {
                 // population comes from upstream: make it long
@@ -632,6 +638,9 @@ fn oscillation_shape(subj: Subj, prof: &Prof) -> BoxedStrategy<Case> {
             for _ in 0..reps {
                 if subj.is_collection() || subj.is_merge() {
                     ops.push(Op::PushMany(fill, pl.clone()));
+                    if fill2 > 0 {
+                        ops.push(Op::PushMany(fill2, pl.clone()));
+                    }
                 }
                 ops.push(Op::Exec(wk, 6));
                 if storm {
@@ -639,7 +648,11 @@ fn oscillation_shape(subj: Subj, prof: &Prof) -> BoxedStrategy<Case> {
                     ops.push(Op::Wake(u16::MAX, 2));
                     ops.push(Op::WakeStale(0, 2));
                 }
-                ops.push(Op::CompleteMany(0, comp));
+                match drain {
+                    0 => ops.push(Op::CompleteMany(0, comp)),
+                    1 => ops.push(Op::CompleteMany(dsel, comp.saturating_mul(3))),
+                    _ => ops.push(Op::CompleteAllBut(dsel)),
+                }
                 ops.push(Op::Exec(wk, 120));
             }
             Case {
